@@ -35,7 +35,7 @@ mod verif_rp_c10_shutdown_queue {
                 Err(_) => refused += 1, // the actor had already gone: the caller is told at once
                 Ok(()) => match tokio::time::timeout(std::time::Duration::from_secs(40), late_rx).await {
                     Ok(_) => answered += 1, // a value or a closed-channel error: both are "a reported error or success"
-                    Err(_) => { stuck += 1; }
+                    Err(_) => { stuck += 1; panic!("WITNESS a request that the action channel accepted behind a shutdown request (burst of {n} requests before it) was not answered within 40 s: the caller waits forever"); }
                 },
             }
         } }
